@@ -3,5 +3,5 @@ Require Import ExtrOcamlBasic.
 From Coq Require Import ZArith.
 Require Import XV.SerDefs XV.GenOutopt XV.OutoptDefs.
 (* Z.of_N only so that the type z exists for ocaml/conv.ml *)
-Extraction "extracted/outopt_model.ml" serialize_opt ser_text html_is html_attr_is process_outputs select_coded
+Extraction "extracted/outopt_model.ml" serialize_opt ser_text_as_coded html_is html_attr_is process_outputs select_coded
   flag_EMPTY flag_RAW flag_BLOCK aflag_ATTRURL aflag_ATTREMPTY Z.of_N.
